@@ -98,7 +98,7 @@ CATALOGUE = [
     ("shared_claim_file_again", ["C17"], [(PA, "            Path(out_file_path).stem + \"_panoptica_aggregator_tmp.tsv\"", "            \"panoptica_aggregator_tmp.tsv\"")]),
     ("stale_claims_kept", ["C17"], [(PA, "        if out_buffer_file.exists():\n            os.remove(out_buffer_file)\n", "")]),
     ("continue_default_false", ["C17"], [(PA, "        continue_file: bool = True,", "        continue_file: bool = False,")]),
-    ("header_row_claimed_again", ["C17", "C18"], [(PA, "_load_first_column_entries(self.__output_file)[1:]", "_load_first_column_entries(self.__output_file)")]),
+    ("header_row_claimed_again", ["C17", "C18"], [(PA, "                        self.__output_file, skip_header=True\n", "                        self.__output_file\n")]),
     # ---- C18
     ("loader_split_all_dashes", ["C18"], [(PS, 'c.rsplit("-", 1)', 'c.split("-")')]),
     ("missing_metric_skipped", ["C18"], [(PA, '                    mvalue = result_dict[e] if e in result_dict else ""\n                    content.append(mvalue)', '                    if e in result_dict or groupname == self.__class_group_names[0]:\n                        content.append(result_dict[e] if e in result_dict else "")')]),
